@@ -73,6 +73,7 @@ class CovSession:
         self.item_cls = {}       # shape -> class of the sampled object (shape option objsample)
         self.items = {}          # shape -> pool of objects handed to sample()
         self.nsample = 0
+        self.ctx = {}            # instance index -> sampling context of instances bound at instantiation (shape option bind)
 
     # ------------------------------------------------------------------ building
     def mk_var(self, sname, vn, vd):
@@ -115,8 +116,29 @@ class CovSession:
             self.item_cls[sname] = vsc.randobj(type(sh["cls"] + "_item", (object,), {"__init__": item_init}))
             self.items[sname] = [self.item_cls[sname]() for _ in range(sh["objsample"])]
 
-        def init(self):
-            if sh.get("objsample"):
+        bind = sh.get("bind", "")
+        if bind == "ref":
+            # the sampled data is an object handed to the constructor BY REFERENCE; sample() takes no arguments
+            def ref_init(self):
+                for vn, vd in sh["vars"].items():
+                    setattr(self, vn, sess.mk_var(sname, vn, vd))
+            self.item_cls[sname] = vsc.randobj(type(sh["cls"] + "_ref", (object,), {"__init__": ref_init}))
+
+        class LambdaSrc:
+            """sampling data bound at instantiation through callables reading a per-instance context"""
+            def __init__(self, ctx):
+                self.ctx = ctx
+
+            def __getattr__(self, vn):
+                ctx = self.ctx
+                return lambda: ctx[vn]
+
+        def init(self, ctx=None):
+            if bind == "lambda":
+                src = LambdaSrc(ctx)
+            elif bind == "ref":
+                src = ctx
+            elif sh.get("objsample"):
                 self.with_sample(dict(it=sess.item_cls[sname]()))
                 src = self.it
             else:
@@ -149,6 +171,8 @@ class CovSession:
                     kw["options"] = opts
                 if cp.get("iff"):
                     kw["iff"] = getattr(src, cp["iff"])
+                if bind == "lambda":
+                    kw["cp_t"] = sess.mk_var(sname, cp["var"], sh["vars"][cp["var"]])
                 c = vsc.coverpoint(getattr(src, cp["var"]), **kw)
                 setattr(self, cp["name"], c)
                 cpo[cp["name"]] = c
@@ -304,7 +328,17 @@ class CovSession:
         def do():
             if sname not in self.classes:
                 self.classes[sname] = self.mk_class(sname)
-            self.insts.append((sname, self.classes[sname]()))
+            bind = self.shapes[sname].get("bind", "")
+            if bind == "lambda":
+                ctx = {vn: 0 for vn in self.shapes[sname]["vars"]}
+                cg = self.classes[sname](ctx)
+            elif bind == "ref":
+                ctx = self.item_cls[sname]()
+                cg = self.classes[sname](ctx)
+            else:
+                ctx, cg = None, self.classes[sname]()
+            self.ctx[len(self.insts)] = ctx
+            self.insts.append((sname, cg))
         e = self.guarded(do)
         self.events.append({"op": "new", "shape": sname, "exc": e, "obs": self.observe()})
 
@@ -324,19 +358,29 @@ class CovSession:
             return [it]
         return args
 
+    def do_sample(self, inst, vals):
+        """one sample of instance `inst` (1-based) with the given values, through the shape's way of providing data"""
+        sname, cg = self.insts[inst - 1]
+        bind = self.shapes[sname].get("bind", "")
+        args = self.sample_args(sname, vals) if bind != "ref" else None
+        if bind == "lambda":
+            self.ctx[inst - 1].update(dict(zip(self.shapes[sname]["vars"], args)))
+            cg.sample()
+        elif bind == "ref":
+            for vn, vd in self.shapes[sname]["vars"].items():
+                setattr(self.ctx[inst - 1], vn, self.enums[(sname, vn)](vals[vn]) if vd.get("enum") else vals[vn])
+            cg.sample()
+        else:
+            cg.sample(*args)
+
     def op_sample(self, op):
-        sname, cg = self.insts[op["inst"] - 1]
-        args = self.sample_args(sname, op["vals"])
-        e = self.guarded(lambda: cg.sample(*args))
+        e = self.guarded(lambda: self.do_sample(op["inst"], op["vals"]))
         self.events.append({"op": "sample", "inst": op["inst"], "vals": op["vals"], "exc": e, "obs": self.observe()})
 
     def op_sweep(self, op):
-        sname, cg = self.insts[op["inst"] - 1]
-        sh = self.shapes[sname]
-
         def do():
             for vals in op["seq"]:
-                cg.sample(*self.sample_args(sname, vals))
+                self.do_sample(op["inst"], vals)
         e = self.guarded(do)
         self.events.append({"op": "sweep", "inst": op["inst"], "seq": op["seq"], "exc": e, "obs": self.observe()})
 
